@@ -798,6 +798,37 @@ def r10_10(ctx):
     ctx.floor(n, 2, "stop() methods with a final new line")
 
 
+def r10_14(ctx):
+    from ..yieldpaths import canon_test
+    ctx.rule("R10.14", "the cursor leaves the live region whatever is on display: the final `console.line()` of Live.stop / Progress.stop, which moves the cursor below the last frame before restore_cursor (transient) or later prints, is conditional only on the kind of console (is_terminal, is_jupyter, is_dumb_terminal) and on the display having been started - never on the renderable. An empty frame ('' or Text('')) still occupies one row and its recorded shape has height 1; without the new line a transient display erases the last printed line above the frame")
+    n = 0
+    for spec in ("live:Live", "progress:Progress"):
+        cls = ctx.repo.cls(spec)
+        stop = cls.method("stop")
+        if stop is None:
+            raise AnchorVanished(f"{spec}.stop not found")
+        g = cfgmod.build(stop.node)
+        for nd in g.stmt_nodes():
+            if nd.kind != "stmt" or nd.stmt is None or isinstance(nd.stmt, (ast.With, ast.Try, ast.If, ast.For, ast.While)):
+                continue
+            if not any(isinstance(c, ast.Call) and norm(c.func) == "self.console.line" for c in ast.walk(nd.stmt)):
+                continue
+            n += 1
+            where = f"{stop.module.relpath}:{nd.lineno}"
+            atoms = []
+            for t, v in g.branch_facts(nd.id):
+                atoms += [(a, tv) for a, tv in canon_test(t, v)]
+            bad = [a for a, _tv in atoms if "renderable" in a or "_live_render" in a or "get_renderable" in a or "tasks" in a]
+            unknown = [a for a, _tv in atoms if a not in bad and not any(k in a for k in ("is_terminal", "is_jupyter", "is_dumb_terminal", "_started", "transient", "disable", "auto_refresh", "_refresh_thread"))]
+            if bad:
+                ctx.violation(stop.fq, short(nd.stmt), where, f"the final new line is emitted only when `{bad[0]}`: an empty frame still takes one row (shape height 1), so with transient=True restore_cursor() starts one row too high and erases the last line printed above the live region")
+            elif unknown:
+                raise AnalysisError(f"{stop.fq}: the final console.line() depends on `{unknown[0]}`; cannot tell whether that can be false while a frame is on screen")
+            else:
+                ctx.ok(where, "the final new line depends only on the kind of console / the display being started", stop.fq)
+    ctx.floor(n, 2, "final new lines in stop()")
+
+
 def r10_11(ctx):
     ctx.rule("R10.11", "update(..., refresh=True) redraws: in Live.update and Progress.update every path to a normal exit on which the `refresh` argument is true passes the call self.refresh() - no early return in front of it (a 'nothing changed' shortcut skips the redraw of an object that was mutated in place and leaves a stale frame on screen)")
     n = 0
@@ -878,7 +909,7 @@ def r10_13(ctx):
     ctx.floor(n, 2, "optional arguments handled by Status.update")
 
 
-RULES = [r10_1, r10_2, r10_3, r10_4, r10_5, r10_6, r10_7, r10_8, r10_9, r10_10, r10_11, r10_12, r10_13]
+RULES = [r10_1, r10_2, r10_3, r10_4, r10_5, r10_6, r10_7, r10_8, r10_9, r10_10, r10_11, r10_12, r10_13, r10_14]
 
 
 def _xcheck(ctx):
